@@ -40,6 +40,52 @@ func TestFinding_F09b_MissingRateDoesNotPanic(t *testing.T) {
 }
 ''')
 PY
+# F-15a: the device teardown sequence lives in Manager.Run (package main, cannot be linked here): the statements between
+# "Device disconnected" and the DespawnOutput call are extracted verbatim (log lines dropped) into a test of package utils
+python3 - "$d" <<'PY'
+import re,sys
+d=sys.argv[1]
+src=open(d+'/cmd/hidi/manager.go').read()
+m=re.search(r'log\.Info\("Device disconnected"[^\n]*\n((?:[^\n]*\n)*?[^\n]*midiEventsInSpawner\.DespawnOutput\(id\)\n)', src)
+block=m.group(1)
+block="\n".join(l for l in block.split("\n") if "log.Info" not in l)
+open(d+'/internal/pkg/utils/zz_f15a_teardown_test.go','w').write('''package utils
+
+import (
+	"testing"
+	"time"
+)
+
+// F-15a: removing a device that has stopped reading its MIDI input must complete (teardown statements of Manager.Run,
+// extracted verbatim from cmd/hidi/manager.go of the revision under test).
+func TestFinding_F15a_DespawnCompletesWhenConsumerStopped(t *testing.T) {
+	in := make(chan int, 8)
+	midiEventsInSpawner := NewDynamicFanOut[int](in)
+	id, midiIn, err := midiEventsInSpawner.SpawnOutput()
+	if err != nil {
+		t.Fatal(err)
+	}
+	_ = midiIn
+	// the device has stopped reading; 10 messages arrive (buffer of the output is 8)
+	go func() {
+		for i := 0; i < 10; i++ {
+			in <- i
+		}
+	}()
+	time.Sleep(100 * time.Millisecond)
+	done := make(chan error, 1)
+	go func() {
+'''+block+'''
+		done <- err
+	}()
+	select {
+	case <-done:
+	case <-time.After(2 * time.Second):
+		t.Fatalf("DespawnOutput did not complete: the delivery loop is blocked on the full output while holding the mutex")
+	}
+}
+''')
+PY
 export GOFLAGS=-mod=mod GOPROXY=off GOSUMDB=off GOTOOLCHAIN=local; unset GOWORK
 (cd $d && go test -vet=off -count=1 -run 'TestFinding_' -json ./internal/... 2>/dev/null) | python3 -c "
 import json,sys
